@@ -1,4 +1,4 @@
 #!/bin/bash
 # alarms.sh [patch...] : run all twenty checks on each behaviour-preserving refactor (default: all of /verif/benign), 4 in parallel
 pats="$@"; [ -z "$pats" ] && pats=$(ls /verif/benign/*.patch)
-printf "%s\n" $pats | xargs -P 4 -I{} /verif/tools/trybenign.sh {} 2>&1 | grep "^=="
+printf "%s\n" $pats | xargs -P ${PAR:-4} -I{} /verif/tools/trybenign.sh {} 2>&1 | grep "^=="
